@@ -12,7 +12,7 @@ def explore(ck, tier, seed, kinds, judge, n_quick=300, n_thorough=6000, profiles
         d = docgen.gen_doc(rng, profiles[k % len(profiles)])
         b = A.build(d); din = A.read(b, table=list(d['rpr_table']))
         raw, clean = docrun.extract(b, False), docrun.extract(b, True)
-        edits = E.gen_batch(rng, din, raw, clean, kinds[k % len(kinds)])
+        edits = E.gen_batch(rng, din, raw, clean, kinds[(k // len(profiles)) % len(kinds)])      # every (profile, kind) combination (k % len(kinds) would alias kinds with profiles)
         if edits: cases.append((d, edits))
     res = E.run_cases(cases)
     stats = {'inside_model': 0, 'outside_model': 0, 'impl_error': 0, 'broken': 0, 'applied': 0, 'skipped': 0}
